@@ -740,6 +740,42 @@ def call_nesting(body):
     return hist
 
 
+def refinement_constructs(bodies):
+    """how often the constructs the Lean refinement (`Calls.GoodAll`) was extended to occur in a template set: blocks,
+    includes, the defs a <%call> exports from below a control line / from a nested <%call>, cached defs"""
+    hist = {}
+
+    def add(k):
+        hist[k] = hist.get(k, 0) + 1
+
+    def go(nodes, in_call, under_ctl, nested_call):
+        # in_call: textually inside the content of a <%call> (not through a def); under_ctl: below a control line
+        # of that content; nested_call: inside a further <%call> of that content
+        for n in nodes:
+            k = n[0]
+            if k == "def":
+                if n[3]["cached"]:
+                    add("cached-def")
+                if in_call and under_ctl:
+                    add("call-def-under-control-line")
+                if in_call and nested_call:
+                    add("call-def-in-nested-call")
+                go(n[4], False, False, False)
+            elif k == "block":
+                add("block:" + ("anonymous" if n[2] else "named") + (":flags" if n[3]["buffered"] or n[3]["filters"] else ""))
+                go(n[4], False, False, False)
+            elif k == "inc":
+                add("include")
+            elif k == "call":
+                go(n[3], True, False, in_call)
+            elif k in ("if", "try", "for", "while"):
+                for slot in G.BODY_SLOTS[k]:
+                    go(n[slot], in_call, in_call or under_ctl, nested_call)
+    for b in bodies:
+        go(b, False, False, False)
+    return hist
+
+
 def expr_forms(body):
     """how defs are called from expressions: by name, capture, inside a concatenation, as an argument"""
     hist = {}
